@@ -129,6 +129,7 @@ def discard_model(ctx, problems):
         if not isinstance(ev, list) or not isinstance(ws, list):
             raise AnalysisError("context-manager model: the queues are no longer known after %s" % desc)
         if [id(x) for x in ev] != ([id(e0)] if pre else []) or [id(x) for x in ws] != ([id(w0)] if pre else []):
+            problems["C03"].append("%s: what the block produced is still queued afterwards (or what was queued before is gone): a watcher is called for an event it must not get, or misses one" % desc)
             (problems["C05"] if fails else problems["C04"]).append("%s: the queues hold %s / %s afterwards, specification %s / %s (what the block produced is dropped, what was queued before is kept)" % (
                 desc, [x.name for x in ev], [x.name for x in ws], ["earlier_event"] if pre else [], ["earlier_watcher"] if pre else []))
         if flushes:
@@ -239,7 +240,7 @@ def edit_constant_model(ctx, problems):
 
 
 def model(ctx):
-    problems = {"C04": [], "C05": [], "C08": [], "C10": [], "C14": []}
+    problems = {"C03": [], "C04": [], "C05": [], "C08": [], "C10": [], "C14": []}
     try:
         n = batch_models(ctx, problems) + discard_model(ctx, problems) + syncing_model(ctx, problems) + edit_constant_model(ctx, problems)
     except Unsupported as e:
